@@ -231,6 +231,58 @@ def self_models(ctx: Ctx, eng: morph.Engine, n: int):
                 roundtrip(ctx, eng, sp, x, key, via_json=True)
 
 
+def policy_layout_roundtrips(ctx: Ctx, n: int):
+    """models behind generated name_mapping options (nested map paths, extra_in = skip / forbid / collect / kwargs with
+    extra_out, omit_default) whose values sit at and off their defaults: load(dump(x)) == x in every mode"""
+    from adaptix import DebugTrail, Retort
+
+    from harness import layouts
+    rng = ctx.rng
+    # the recorded finding, deterministically
+    import dataclasses
+
+    from adaptix import name_mapping
+
+    @dataclasses.dataclass
+    class NX:
+        a: int
+        b: int
+        extra: dict = dataclasses.field(default_factory=dict)
+    r0 = Retort(recipe=[name_mapping(NX, map={"b": ("nested", "b")}, extra_in="extra", extra_out="extra")])
+    x0 = NX(a=1, b=2, extra={"u": 9})
+    ctx.note_case({"probe": "nested-extra"}, nontrivial=True, kind="probe:nested-extra")
+    if r0.load(r0.dump(x0), NX) != x0:
+        ctx.fail("roundtrip:policy-layout:nested-branch-keys-as-extra", f"load(dump(x)) != x: {x0!r} -> {r0.load(r0.dump(x0), NX)!r}",
+                 {"probe": "nested-extra", "suite": "policy-layout"})
+    for i in range(n):
+        case = layouts.gen_case(rng, i)
+        cls = case["cls"]
+        nested = any(len(p) > 1 for p in case["paths"].values())
+        for m in morph.MODES:
+            try:
+                retort = Retort(recipe=case["recipe"](), debug_trail=getattr(DebugTrail, m))
+                x, d = case["good"](rng, retort)
+            except Exception as e:  # noqa: BLE001
+                ctx.dist[f"policy-layout:not-built:{type(e).__name__}"] += 1
+                break
+            desc = dict(case["desc"], suite="policy-layout", mode=m, value=repr(x)[:200], dumped=repr(d)[:200])
+            ctx.note_case(desc, nontrivial=True, kind=f"roundtrip:policy-layout:{case['extra_mode']}:{'nested' if nested else 'flat'}:"
+                          f"{'omit' if case['omit_default'] else 'keep'}")
+            try:
+                x2 = retort.load(d, cls)
+            except Exception as e:  # noqa: BLE001
+                ctx.fail("load-of-dump-fails:policy-layout", f"load(dump(x)) raised {type(e).__name__} for {x!r:.120} dumped as {d!r:.120} "
+                         f"[{m}] ({case['desc']})", desc)
+                break
+            if x2 != x:
+                if nested and case["extra_mode"] in ("collect", "kwargs"):
+                    ctx.fail("roundtrip:policy-layout:nested-branch-keys-as-extra", f"load(dump(x)) != x: {x!r:.100} -> {x2!r:.140} [{m}]", desc)
+                else:
+                    ctx.fail("roundtrip:policy-layout", f"load(dump(x)) != x: {x!r:.100} dumped as {d!r:.100} loads as {x2!r:.100} [{m}] "
+                             f"({case['desc']})", desc)
+                break
+
+
 def _same_enum_value(a, b) -> bool:
     try:
         return bool(a == b)
@@ -382,6 +434,7 @@ def run(ctx: Ctx):
     name_mapping_roundtrips(ctx, ctx.budget(150, 3000))
     enum_roundtrips(ctx, eng, ctx.budget(60, 1200))
     self_models(ctx, eng, ctx.budget(40, 600))
+    policy_layout_roundtrips(ctx, ctx.budget(120, 2000))
 
 
 def search(ctx: Ctx):
@@ -390,6 +443,7 @@ def search(ctx: Ctx):
     optional_models(ctx, eng, 300)
     enum_roundtrips(ctx, eng, 600)
     self_models(ctx, eng, 300)
+    policy_layout_roundtrips(ctx, 1000)
     for spec in eng.gen_specs(2000, 4, literal_unions=True):
         if eng.real.dump("DISABLE", True, spec.hint, None).get("r") == "no-dumper":
             continue
